@@ -12,15 +12,15 @@ class BranchTreeAssembler(Transform[BranchTree, Tree]):
     EPS = 1e-6
 
     def __call__(self, x: BranchTree) -> Tree:
-        nodes = [x.soma().detach()]
-        stack = [(x.soma(), 0)]  # n_orig, id_new
+        nodes = [x.soma(type_check=False).detach()]
+        stack = [(x.soma(type_check=False), 0)]  # n_orig, id_new
         while len(stack):
             n_orig, pid_new = stack.pop()
             children = n_orig.children()
 
             for br, c in self.pair(x.branches.get(n_orig.id, []), children):
                 s = 1 if np.linalg.norm(br[0].xyz() - n_orig.xyz()) < self.EPS else 0
-                e = -2 if np.linalg.norm(br[-1].xyz() - c.xyz()) < self.EPS else -1
+                e = -1 if np.linalg.norm(br[-1].xyz() - c.xyz()) < self.EPS else None
 
                 br_nodes = [n.detach() for n in br[s:e]] + [c.detach()]
                 for i, n in enumerate(br_nodes):
